@@ -114,6 +114,15 @@ CLAIMED = {
         note="Floats exact reals (float64 conditioning over thousands of days outside). If the solve leaves the linear regime (weights "
              "depending on observations) that is handed to the replayer as a candidate rather than decided. Trusted: pysym, z3.",
         technique="symbolic execution + z3 QF_LIRA against the normal equations", ref="5 C20"),
+    "C14": dict(
+        text="Bounded symbolic verification: every kernel is executed symbolically at the boundary sizes of its contract (smoothers n = 2..5, "
+             "all-missing / one valid / edge gap, robust GCV; ws2d n = 2..5; rolling_sum window 1 and n; mean_grp / gammastd_grp incl. an "
+             "all-nodata group; do_mean one pixel; lroo; autocorr; Mann-Kendall; tinterpolate with 4..6 days). Every subscript the run "
+             "evaluates is an obligation 'in bounds after wrap-around' under its path guard, every read of an unassigned local or "
+             "uninitialised cell and every unwritten gufunc output element is an obligation; symbolic ones go to z3, candidates are "
+             "replayed under NUMBA_BOUNDSCHECK=1 (IndexError / dependence on the previous buffer content).",
+        note="Checks the source's index expressions, not the machine code; in-contract inputs only. Trusted: pysym, z3.",
+        technique="symbolic execution with bounds / definite-assignment obligations + z3", ref="5 C14"),
 }
 
 NOT_APPLICABLE = {
